@@ -156,6 +156,11 @@ func RunCheck(id string, opts *Options) (*Report, int) {
 						Detail: "not verifiable: " + u, Raw: "(set-logic ALL)\n(check-sat)\n; " + strings.ReplaceAll(u, "\n", " ") + "\n"})
 				}
 			}
+			if len(run.Unsupp) > 0 && len(run.Goals) > 400 {
+				// the function left the supported subset half-way: its proof is lost anyway,
+				// do not spend solver time (and memory) on thousands of partial conditions
+				run.Goals = run.Goals[:400]
+			}
 			n := 0
 			for _, g := range run.Goals {
 				if len(g.Props) > 0 && !hasProp(g.Props, id) {
